@@ -425,6 +425,9 @@ where
         }
     };
     c.out.eval(hash_f64s(&key), d.x.len() >= 3);
+    if std::env::var("C19_DUMP").is_ok() {
+        eprintln!("DUMP {} {}", c.tname, serde_json::to_string(&m).unwrap_or_default());
+    }
     check_roundtrip(c, &m, eq, &|mm: &M| obs(mm, d));
     // second fit on the same data
     if let Ok(Ok(m2)) = fit_guarded(&fit, d) {
@@ -477,7 +480,7 @@ where
     }
 }
 
-/// a fit that does not return within 4 s is a (counted) fit failure, not a C19 matter
+/// a fit that does not return within 2 s is a (counted) fit failure, not a C19 matter
 fn fit_guarded<M, F>(fit: &F, d: &Data) -> Result<Result<M, String>, String>
 where
     M: Send + 'static,
@@ -485,14 +488,14 @@ where
 {
     let f2 = fit.clone();
     let d2 = d.clone();
-    match with_watchdog(4, move || f2(&d2)) {
-        None => Err("fit does not return within 4 s".to_string()),
+    match with_watchdog(2, move || f2(&d2)) {
+        None => Err("fit does not return within 2 s".to_string()),
         Some(r) => r,
     }
 }
 
-/// switch to `true` once KNOWN_FINDINGS.txt lists `property=C19 id=dbscan-eq-ignores-points`
-const DBSCAN_FINDING_LISTED: bool = false;
+/// KNOWN_FINDINGS.txt lists `property=C19 id=dbscan-eq-ignores-points`
+const DBSCAN_FINDING_LISTED: bool = true;
 fn dbscan_same_labelling<M: Serialize>(a: &M, b: &M) -> bool {
     match (serde_json::to_value(a), serde_json::to_value(b)) {
         (Ok(x), Ok(y)) => x["cluster_labels"] == y["cluster_labels"] && x["num_classes"] == y["num_classes"] && x["eps"] == y["eps"] && x["cluster_labels"].is_array(),
@@ -531,8 +534,9 @@ fn case_dense_matrix<T: Num>(c: &mut Case, rng: &mut Rng) {
     };
     let v1 = mkv(rng);
     let mut v2 = mkv(rng);
-    if n * p > 0 && v2 == v1 {
-        v2[0] += 1.0;
+    if n * p > 0 {
+        // "different data" for a relation with tolerance machine-epsilon: at least one entry differs visibly
+        v2[0] = if v1[0].abs() < 1e3 { v1[0] + 1.0 } else { 0.5 };
     }
     c.input["nrows"] = json!(n);
     c.input["ncols"] = json!(p);
@@ -902,7 +906,7 @@ fn case_tree<T: Num>(c: &mut Case, rng: &mut Rng, which: usize) {
 fn case_nb<T: Num>(c: &mut Case, rng: &mut Rng, which: usize) {
     let p = rng.usize_in(1, 5);
     let k = rng.usize_in(2, 3);
-    let n = rng.usize_in(k + 3, 30);
+    let n = rng.usize_in(2 * k + 1, 30);
     let feat = match which {
         0 => Feat::Cont,
         1 => Feat::Binary,
